@@ -30,13 +30,23 @@ def _term(e, fn, body, decls, depth=0):
     if not isinstance(e, dict) or depth > 12:
         return "?"
     k = e.get("k")
-    if k == "mem" and e.get("n") in ("_lb", "_ub"):
+    if k == "mem" and e.get("n") in ("_lb", "_ub") and not (isinstance(strip(e.get("b")), dict) and strip(e.get("b")).get("rk") == "local"):
         who = "t" if is_this(e.get("b")) else ("x" if is_param(e.get("b"), fn, 0) else "?")
         return who + ("l" if e["n"] == "_lb" else "u")
     if k == "call" and callee(e) and callee(e)["name"] in ("lb", "ub") and "o" in e and not e.get("a"):
         who = "t" if is_this(e["o"]) else ("x" if is_param(e["o"], fn, 0) else "?")
         return who + ("l" if callee(e)["name"] == "lb" else "u")
-    if k == "call" and e.get("op") in ("+", "-", "*") and callee(e):
+    if k == "mem" and e.get("n") in ("_lb", "_ub") and isinstance(strip(e.get("b")), dict) and strip(e.get("b")).get("rk") == "local":
+        # a bound of a LOCAL interval: stands for the operand's own bound only if the local is a plain copy of *this / x
+        base = strip_move(resolve_local(body, e.get("b"), decls))
+        while isinstance(base, dict) and base.get("k") == "ctor" and base.get("cp") and base.get("a"):
+            base = strip_move(base["a"][0])
+        if is_this(base) or (isinstance(base, dict) and base.get("k") == "un" and base.get("op") == "*" and is_this(base.get("e"))):
+            return "t" + ("l" if e["n"] == "_lb" else "u")
+        if is_param(base, fn, 0):
+            return "x" + ("l" if e["n"] == "_lb" else "u")
+        return "shifted(%s)" % src(e)
+    if k == "call" and e.get("op") in ("+", "-", "*", "/") and callee(e):
         ops = ([e["o"]] if "o" in e else []) + e.get("a", [])
         ts = [_term(o, fn, body, decls, depth + 1) for o in ops]
         if len(ts) == 1 and e["op"] == "-":
@@ -44,7 +54,7 @@ def _term(e, fn, body, decls, depth=0):
         if len(ts) == 2:
             if e["op"] in ("+", "*"):
                 ts = sorted(ts)
-            return "%s(%s,%s)" % ({"+": "add", "-": "sub", "*": "mul"}[e["op"]], ts[0], ts[1])
+            return "%s(%s,%s)" % ({"+": "add", "-": "sub", "*": "mul", "/": "div"}[e["op"]], ts[0], ts[1])
     if k == "call" and callee(e) and callee(e)["name"] in ("min", "max") and callee(e).get("static"):
         ts = sorted(set(_term(o, fn, body, decls, depth + 1) for o in e.get("a", [])))
         return "%s{%s}" % (callee(e)["name"], ",".join(ts))
@@ -549,3 +559,39 @@ def r7_list_typestate(ctx):
 
 
 RULES += [r7_list_typestate]
+
+
+DIVCORNERS = "div(tl,xl),div(tl,xu),div(tu,xl),div(tu,xu)"
+
+
+def r1d_division(ctx):
+    ctx.rule("C08.r1d", "integer interval division, operands without 0: the result is [min, max] of the four quotients of the operands' OWN "
+             "bounds (truncated division is monotone on sign-constant operands); the singleton-divisor path divides the bounds directly", floor=1)
+    fs = [f for f in ctx.db.fns(LI, cpk=ITV, name="operator/") if "z_number" in (f.get("cls") or "")]
+    if not ctx.need(fs, "z_interval::operator/"):
+        return
+    for fn in fs:
+        body = fn["body"]
+        decls = local_decls(body)
+        found = False
+        for r in rets(body):
+            v = strip_move(resolve_local(body, r.get("v"), decls))
+            if not (isinstance(v, dict) and v.get("k") == "ctor" and len(v.get("a", [])) == 2):
+                continue
+            lo, hi = _term(v["a"][0], fn, body, decls), _term(v["a"][1], fn, body, decls)
+            if not (lo.startswith("min{") and hi.startswith("max{")):
+                continue
+            found = True
+            if lo == "min{%s}" % DIVCORNERS and hi == "max{%s}" % DIVCORNERS:
+                ctx.ok("general case: [min, max] of the corner quotients", fn, r)
+            elif "?" in lo or "?" in hi:
+                ctx.undecided("z_interval::operator/: corner expression outside the grammar ([%s, %s])" % (lo[:80], hi[:80]), fn, r)
+            else:
+                ctx.bad("z_interval::operator/ (no operand contains 0) returns [%s, %s]: the extreme quotients are the quotients of the "
+                        "operands' own bounds; a shifted dividend loses results such as -2 / -3 = 0 for [-3,-2] / [-3,-2]" %
+                        (lo[:120], hi[:120]), fn, r, sig="division-corners")
+        if not found:
+            ctx.undecided("z_interval::operator/: the [min, max] of corner quotients was not found", fn, body)
+
+
+RULES += [r1d_division]
